@@ -1,7 +1,8 @@
 /-
 Model driver for C18 (modules). One request line = one scenario:
 
-  run (cfg <runImportTests 0|1> <hostTests 0|1> <exportAlias 0|1> <prelude name>*) (fs <file>*) (ops <op>*)
+  run (cfg <runImportTests 0|1> <hostTests 0|1> <exportAlias 0|1> <canonFile 0|1> <exportStrAlias 0|1>
+       (stems (<name> <stem>)*) <prelude name>*) (fs <file>*) (ops <op>*)
   file  = (f <path> bad) | (f <path> <tact>*)
   path  = (p (<dir name>*) <name> <0|1 isDir>)
   tact  = (a <act>) | (main <mk> <act>*) | (test <name> <mk> <act>*)
@@ -10,7 +11,7 @@ Model driver for C18 (modules). One request line = one scenario:
         | (pat <0|1 export> (<target>*) (<rhs>*))
   target = (id k) | (ign) | (map <entry>*)      entry = (e key target) | (e key _)
   rhs   = (lit n) | (ref k)
-  item  = (i name) | (i name alias)
+  item  = (i <ref>) | (i <ref> alias)     ref = name | (r name <0|1 string> <seg>*)   seg = name | ..
   op    = (op (<dir name>*) <0|1 exportTop> <tact>*)
 
 Response: one group per operation, separated by " | ":
@@ -24,11 +25,13 @@ import KotoVerif.Model.Modules
 
 open KotoVerif KotoVerif.Proto KotoVerif.Modules
 
+/-- names 200 + 10·a + b are the dotted names `m<a>.v<b>` -/
 def nameStr (n : Nat) : String :=
-  if n == 99 then "string" else if n < 50 then s!"m{n}" else s!"k{n}"
+  if n == 99 then "string" else if n ≥ 200 then s!"m{(n - 200) / 10}.v{(n - 200) % 10}"
+  else if n < 50 then s!"m{n}" else s!"k{n}"
 
 def pathStr (p : Path) : String :=
-  String.join (p.dir.map (fun d => nameStr d ++ "/")) ++ nameStr p.name ++ (if p.isDir then "/main.koto" else ".koto")
+  String.join (p.dir.map (fun d => (match d with | some d => nameStr d | none => "..") ++ "/")) ++ nameStr p.name ++ (if p.isDir then "/main.koto" else ".koto")
 
 def errStr : Err → String
   | .recursive => "rec" | .notFound => "nf" | .compile => "compile" | .thrown => "thrown"
@@ -77,12 +80,22 @@ def pNames (xs : List Sexp) : Option (List Nat) := xs.mapM Sexp.nat?
 
 def pPath : Sexp → Option Path
   | .list [.atom "p", .list dir, n, d] => do
-    pure { dir := (← pNames dir), name := (← n.nat?), isDir := (← d.nat?) == 1 }
+    pure { dir := (← pNames dir).map some, name := (← n.nat?), isDir := (← d.nat?) == 1 }
   | _ => none
 
+def pSeg : Sexp → Option (Option Nat)
+  | .atom ".." => some none
+  | x => x.nat?.map some
+
+/-- `name` (an id) or `(r name <0|1 str> seg*)` -/
+def pRef : Sexp → Option Ref
+  | .list (.atom "r" :: n :: st :: segs) => do
+    pure { name := (← n.nat?), str := (← st.nat?) == 1, segs := (← segs.mapM pSeg) }
+  | x => do pure { name := (← x.nat?) }
+
 def pItem : Sexp → Option Item
-  | .list [.atom "i", n] => do pure { name := (← n.nat?), as_ := none }
-  | .list [.atom "i", n, a] => do pure { name := (← n.nat?), as_ := some (← a.nat?) }
+  | .list [.atom "i", n] => do pure { toRef := (← pRef n), as_ := none }
+  | .list [.atom "i", n, a] => do pure { toRef := (← pRef n), as_ := some (← a.nat?) }
   | _ => none
 
 def pEntry : Sexp → Option PEntry
@@ -108,9 +121,11 @@ def pAct : Sexp → Option Act
   | .list [.atom "exportid", k, s] => do pure (.exportId (← k.nat?) (← s.nat?))
   | .list [.atom "show", mk, k] => do pure (.show (← mk.nat?) (← k.nat?))
   | .list (.atom "import" :: items) => do pure (.importMods (← items.mapM pItem))
-  | .list (.atom "from" :: m :: items) => do pure (.fromImport (← m.nat?) (← items.mapM pItem))
-  | .list [.atom "fromall", m] => do pure (.fromAll (← m.nat?))
-  | .list [.atom "try", m, mk] => do pure (.tryImport (← m.nat?) (← mk.nat?))
+  | .list (.atom "from" :: m :: items) => do pure (.fromImport (← pRef m) (← items.mapM pItem))
+  | .list [.atom "fromall", m] => do pure (.fromAll (← pRef m))
+  | .list [.atom "try", m, mk] => do
+    let r ← pRef m
+    pure (.tryImport { r with str := true } (← mk.nat?))
   | .list [.atom "fail", mk] => do pure (.fail (← mk.nat?))
   | .list [.atom "pat", e, .list ts, .list rs] => do
     pure (.assignPat ((← e.nat?) == 1) (← ts.mapM pTarget) (← rs.mapM pRhs))
@@ -134,15 +149,22 @@ def pOp : Sexp → Option Op
 
 def mkFS (files : List (Path × File)) : FS := fun p => (files.find? (fun pf => pf.1 == p)).map (·.2)
 
-def fuelFor (files : List (Path × File)) : Nat := files.length + 3
+/-- generous: covers several spellings per file while `find_module` does not normalise its keys -/
+def fuelFor (files : List (Path × File)) : Nat := 6 * files.length + 8
 
 def handle (line : String) : String :=
   match parseLine line with
-  | [.atom cmd, .list (.atom "cfg" :: it :: ht :: al :: pre), .list (.atom "fs" :: files), .list (.atom "ops" :: ops)] =>
+  | [.atom cmd, .list (.atom "cfg" :: it :: ht :: al :: cf :: sa :: .list (.atom "stems" :: stems) :: pre),
+      .list (.atom "fs" :: files), .list (.atom "ops" :: ops)] =>
     let ghost := cmd == "rung"
+    let stems := stems.filterMap (fun x => match x with
+      | .list [a, b] => do pure ((← a.nat?), (← b.nat?))
+      | _ => none)
     match it.nat?, ht.nat?, al.nat?, pNames pre, files.mapM pFile, ops.mapM pOp with
     | some it, some ht, some al, some pre, some files, some ops =>
       let cfg : Cfg := { runImportTests := it == 1, hostTests := ht == 1, exportAlias := al == 1,
+                         canonFile := cf.nat? == some 1, exportStrAlias := sa.nat? == some 1,
+                         stem := fun n => ((stems.find? (fun x => x.1 == n)).map (·.2)).getD n,
                          prelude := fun n => if pre.contains n then some (.core n) else none }
       let fs := mkFS files
       match runOps cfg fs (fuelFor files) ops init with
